@@ -2,6 +2,10 @@ package ops
 
 import (
 	"bufio"
+	"strings"
+
+	oraclekeeper "github.com/ExocoreNetwork/exocore/x/oracle/keeper"
+
 	"crypto/sha256"
 	"encoding/hex"
 	"fmt"
@@ -83,6 +87,16 @@ func (w *World) trace(st *Step) {
 	}
 	if st.Kind == "begin_block" {
 		out += "|apphash=" + hex.EncodeToString(w.C.LastAppHash)
+	}
+	// the oracle's open rounds are what decides which price transactions are accepted next (and what the workload
+	// generator looks at): part of the judged output
+	if open := oraclekeeper.VerifOpenRounds(); len(open) > 0 {
+		var fs []string
+		for f, b := range open {
+			fs = append(fs, fmt.Sprintf("%d:%d", f, b))
+		}
+		sort.Strings(fs)
+		out += "|open-rounds=" + strings.Join(fs, ",")
 	}
 	mem := ""
 	if w.Last != nil {
